@@ -109,7 +109,11 @@ def _profile(r, i):
 def _pick_span(r, base, width, cur, maxlen, zero_ok=True):
     """(start, length) near existing boundaries with some probability"""
     k = r.random()
-    if zero_ok and k < 0.02:
+    if zero_ok and k < 0.04:
+        # zero length: mostly strictly inside an existing span, at its edges, or just outside
+        if cur and r.random() < 0.8:
+            (a, n) = r.choice(cur)
+            return r.choice([a + r.randrange(n), a + n // 2, a, a + n, a + n - 1, a + 1, max(base, a - 1)]), 0
         return base + r.randrange(width), 0
     if k < 0.45 and cur:
         (a, n) = r.choice(cur)
@@ -169,11 +173,15 @@ def gen_spans_history(r, nops, profile):
             ops.append(("add", a, n))
             if n:
                 ref |= set(range(a, a + n))
+            else:
+                ops.append(("contains", max(base, a - 1), 2))
         elif k < 0.62:
             a, n = _pick_span(r, base, width, cur, maxlen)
             ops.append(("remove", a, n))
             if n:
                 ref -= set(range(a, a + n))
+            else:
+                ops.append(("contains", max(base, a - 1), 2))
         elif k < 0.74:
             a, n = _pick_span(r, base, width, cur, maxlen)
             ops.append(("contains", a, n))
@@ -379,6 +387,11 @@ EDGE_SPANS = [
     [("union", ((5, 5), (10, 5), (3, 1), (4, 1))), ("diff", ((0, 300),)), ("union", ()), ("diff", ()), ("iadd", ()), ("isub", ()), ("inter", ((1, 1),))],
     [("add", 0, 300), ("remove", 1, 1), ("remove", 3, 1), ("remove", 5, 1), ("remove", 7, 1), ("add", 1, 7), ("remove", 0, 300)],
     [("add", 1, 1), ("add", 3, 1), ("add", 5, 1), ("add", 7, 1), ("add", 9, 1), ("add", 2, 1), ("add", 8, 1), ("add", 4, 3), ("remove", 2, 7), ("remove", 1, 9)],
+    # zero-length arguments inside a span, at its edges and outside, each followed by membership queries across that offset
+    [("add", 10, 8), ("remove", 13, 0), ("contains", 10, 8), ("contains", 12, 3), ("add", 14, 0), ("contains", 13, 2), ("remove", 10, 0), ("remove", 18, 0), ("add", 18, 0),
+     ("add", 9, 0), ("contains", 10, 8), ("contains", 9, 2), ("contains", 17, 2), ("contains", 13, 0), ("contains", 18, 0), ("remove", 14, 1), ("remove", 14, 0), ("contains", 13, 3)],
+    [("union", ((10, 8),)), ("contains", 12, 0), ("inter", ((0, 100),)), ("remove", 12, 0), ("contains", 11, 3), ("diff", ((12, 1),)), ("remove", 12, 0), ("add", 12, 0),
+     ("contains", 11, 3), ("contains", 11, 1), ("contains", 13, 5), ("iadd", ((12, 1),)), ("remove", 12, 0), ("contains", 10, 8)],
 ]
 
 
@@ -464,6 +477,23 @@ def gen_ds_history(r, nops, profile):
                 for x in range(a, a + n):
                     del ref[x]
 
+    def straddle(x, n):
+        """after a zero-length operation at x: read across x (the chunk holding x, whole
+        and in part), so that a chunk cut or damaged at x shows in what get/pop return"""
+        if n != 0:
+            return
+        for (a, m) in runs_of(ref.keys()):
+            if a <= x <= a + m:
+                lo = max(a, x - 1 - r.randrange(3))
+                hi = min(a + m, x + 1 + r.randrange(3))
+                if hi > lo:
+                    apply(("get", lo, hi - lo))
+                if r.random() < 0.5:
+                    apply(("get", a, m))
+                if r.random() < 0.25 and hi > lo:
+                    apply(("pop", lo, hi - lo))
+                break
+
     while len(ops) < nops:
         cur = runs_of(ref.keys())
         k = r.random()
@@ -493,15 +523,18 @@ def gen_ds_history(r, nops, profile):
         elif k < 0.46 or not ref:
             a, n = _pick_span(r, base, width, cur, maxlen)
             apply(("add", a, bytes(r.getrandbits(8) for _ in range(n))))
+            straddle(a, n)
         elif k < 0.64:
             a, n = _pick_span(r, base, width, cur, maxlen)
             apply(("remove", a, n))
+            straddle(a, n)
         elif k < 0.82:
             a, n = _pick_span(r, base, width, cur, maxlen)
             apply(("get", a, n))
         else:
             a, n = _pick_span(r, base, width, cur, maxlen)
             apply(("pop", a, n))
+            straddle(a, n)
     return ops
 
 
@@ -695,6 +728,14 @@ EDGE_DS = [
     [("add", 2 ** 64 - 2, b"abcd"), ("add", 2 ** 64 + 2, b"ef"), ("get", 2 ** 64 - 1, 4), ("pop", 2 ** 64, 1), ("get", 2 ** 64 - 2, 2), ("remove", 2 ** 64 - 3, 2 ** 64), ("add", 2 ** 70, b"z")],
     [("add", 0, b"a"), ("add", 2, b"c"), ("add", 4, b"e"), ("add", 1, b"b"), ("add", 3, b"d"), ("get", 0, 5), ("pop", 0, 5), ("get", 0, 1)],
     [("add", 5, b"12345"), ("add", 3, b"ab"), ("add", 10, b"cd"), ("add", 0, b"xyz"), ("get", 0, 12), ("add", 4, b"Q"), ("add", 9, b"RS"), ("get", 0, 12)],
+    # zero-length arguments inside a chunk, at its edges and outside, each followed by reads across that offset
+    [("add", 10, b"abcdefgh"), ("remove", 13, 0), ("get", 10, 8), ("get", 12, 3), ("pop", 12, 2), ("get", 10, 2), ("get", 14, 4), ("remove", 14, 0), ("remove", 18, 0),
+     ("remove", 16, 0), ("get", 14, 4), ("get", 15, 2), ("pop", 15, 2), ("get", 14, 1), ("get", 17, 1)],
+    [("add", 20, b"0123456789"), ("add", 25, b""), ("get", 20, 10), ("pop", 24, 0), ("get", 23, 3), ("get", 24, 0), ("remove", 24, 0), ("get", 20, 10), ("get", 23, 2),
+     ("remove", 20, 0), ("remove", 30, 0), ("remove", 19, 0), ("remove", 31, 0), ("get", 20, 10), ("pop", 20, 10), ("remove", 22, 0), ("get", 22, 0), ("pop", 22, 0)],
+    [("add", 5, b"abc"), ("add", 9, b"def"), ("remove", 8, 0), ("remove", 6, 0), ("get", 5, 3), ("add", 8, b"X"), ("remove", 8, 0), ("remove", 9, 0), ("get", 5, 7),
+     ("remove", 7, 0), ("pop", 6, 4), ("get", 5, 1), ("get", 10, 2), ("remove", 11, 0), ("get", 10, 2)],
+    [("add", 2 ** 64 - 4, b"abcdefgh"), ("remove", 2 ** 64, 0), ("get", 2 ** 64 - 4, 8), ("remove", 2 ** 64 - 1, 0), ("pop", 2 ** 64 - 2, 4), ("get", 2 ** 64 - 4, 2)],
     # a block is consumed and an equally long one arrives elsewhere between two looks at the state
     [("add", 0, b"AAAA"), ("get", 0, 4), ("remove", 0, 4), ("add", 10, b"BBBB"), ("add", 100, b"x" * 20), ("get", 100, 20), ("pop", 100, 20), ("add", 120, b"y" * 20),
      ("pop", 120, 20), ("add", 140, b"z" * 20), ("get", 140, 20), ("get", 10, 4)],
